@@ -322,4 +322,40 @@ def jsonCredits (ts : List FTxn) : Int :=
 def jsonNet (ts : List FTxn) : Option Int :=
   if jsonIncome ts > 0 then some (jsonIncome ts - (ts.map (·.amount)).sum) else none
 
+/-! ## dates: the calendar, and the two texts the analysis keeps of a transaction's day
+
+`analyze_transactions` keeps `txn['date'].strftime('%Y-%m')` (the month key: `by_month`, `num_months`, per-merchant months, the
+monthly table, views by month / year) and `txn['date'].strftime('%m/%d')` (the day shown with a transaction; `dataThrough`).
+Days are triples of naturals `(y, m, d)`; the model is glibc's `strftime` for 1000 ≤ y ≤ 9999. -/
+
+def isLeap (y : Nat) : Bool := y % 4 == 0 && (y % 100 != 0 || y % 400 == 0)
+
+def daysIn (y m : Nat) : Nat :=
+  if m = 2 then (if isLeap y then 29 else 28)
+  else if m = 4 ∨ m = 6 ∨ m = 9 ∨ m = 11 then 30 else 31
+
+/-- `datetime(y, m, d)` does not raise (for 1 ≤ y ≤ 9999) -/
+def validDay (y m d : Nat) : Bool := decide (1 ≤ m) && decide (m ≤ 12) && decide (1 ≤ d) && decide (d ≤ daysIn y m)
+
+def dch (n : Nat) : Char :=
+  match n with
+  | 0 => '0' | 1 => '1' | 2 => '2' | 3 => '3' | 4 => '4' | 5 => '5' | 6 => '6' | 7 => '7' | 8 => '8' | _ => '9'
+
+def pad2 (n : Nat) : List Char := [dch (n / 10 % 10), dch (n % 10)]
+def pad4 (n : Nat) : List Char := [dch (n / 1000 % 10), dch (n / 100 % 10), dch (n / 10 % 10), dch (n % 10)]
+
+/-- `strftime('%Y-%m')` -/
+def monthKey (y m : Nat) : List Char := pad4 y ++ '-' :: pad2 m
+/-- `strftime('%m/%d')` -/
+def dayKey (m d : Nat) : List Char := pad2 m ++ '/' :: pad2 d
+
+/-- the distinct month keys in first-appearance order (keys of `by_month`) -/
+def monthsSeen : List (Nat × Nat × Nat) → List (List Char)
+  | [] => []
+  | (y, m, _) :: rest => monthKey y m :: (monthsSeen rest).filter (· ≠ monthKey y m)
+
+/-- `num_months` of `analyze_transactions` (for a non-empty list) -/
+def numMonths (days : List (Nat × Nat × Nat)) : Nat := (monthsSeen days).length
+
+
 end TallyVerif.Report
